@@ -10,7 +10,7 @@ use std::ffi::OsString;
 
 pub static DEF: PropDef = PropDef {
     id: "C18",
-    rule: "random: a generated tree c/d (<=12 nodes, links included) plus a file, a link to the directory, a dangling link and entries whose names start with '-' or contain newlines/blanks x lists of 0-5 starting points drawn from: every spelling of the same directory (d, ./d, d/, d//, ./d/., d/../d, d/sub/.., absolute, c//d), '.', files, links, dangling links, missing names, duplicates x tail expression (-print0, with -maxdepth 1 / -depth / a -name test) x follow mode (-P, -L) x how the list is given: as operands, through -files0-from FILE (with/without final NUL, empty names at any position), through -files0-from - (stdin; built binary). Oracle: stdout == concatenation, in the order given, of the reference walk of each starting point with its spelling as path prefix (no operand => walk of '.'); a starting point that cannot be examined => diagnostic + exit != 0 and every other one still present in order; empty names in a files0 list => a diagnostic, the rest unaffected; metamorphic: find -files0-from F EXPR and find NAMES... EXPR give the same stdout and exit class whenever all names can be written as operands. Non-trivial = >= 2 starting points with at least one non-plain spelling or a failing one, or a files0 list holding a name that cannot be an operand (leading '-', or an empty name). Distinct = distinct case JSON.",
+    rule: "random: a generated tree c/d (<=12 nodes, links included) plus a file, a link to the directory, a dangling link and entries whose names start with '-' or contain newlines/blanks x lists of 0-5 starting points drawn from: every spelling of the same directory (d, ./d, d/, d//, ./d/., d/../d, d/sub/.., absolute, c//d), '.', files, links, dangling links, missing names, duplicates x tail expression (-print0, with -maxdepth 0/1, -mindepth 1/2, -depth or a -name test) x follow mode (-P, -L) x how the list is given: as operands, through -files0-from FILE (with/without final NUL, empty names at any position), through -files0-from - (stdin; built binary). Oracle: stdout == concatenation, in the order given, of the reference walk of each starting point with its spelling as path prefix (no operand => walk of '.'); a starting point that cannot be examined => diagnostic + exit != 0 and every other one still present in order; empty names in a files0 list => a diagnostic, the rest unaffected; metamorphic: find -files0-from F EXPR and find NAMES... EXPR give the same stdout and exit class whenever all names can be written as operands. Non-trivial = >= 2 starting points with at least one non-plain spelling or a failing one, or a files0 list holding a name that cannot be an operand (leading '-', or an empty name). Distinct = distinct case JSON.",
     assumptions: &[
         "an empty -files0-from list is not compared with 'no operands' (the statement does not say)",
         "names in a files0 list are valid UTF-8",
@@ -31,7 +31,8 @@ pub struct Case {
     pub final_nul: bool,
     /// positions (in the rendered list) before which an empty name is inserted (files0 only)
     pub empties: Vec<usize>,
-    /// 0 -print0, 1 -maxdepth 1 -print0, 2 -depth -print0, 3 -name '*a*' -print0, 4 -maxdepth 0 -print0
+    /// 0 -print0, 1 -maxdepth 1 -print0, 2 -depth -print0, 3 -name '*a*' -print0, 4 -maxdepth 0 -print0,
+    /// 5 -mindepth 1 -print0, 6 -mindepth 2 -print0
     pub tail: u8,
     pub follow_l: bool,
     pub binary: bool,
@@ -52,6 +53,8 @@ pub fn gen_case(g: &mut Gen) -> Case {
     tree.nodes.push(Node::new("c/a b/x\ny", Kind::File));
     tree.nodes.push(Node::new("c/nl\nname", Kind::Dir));
     tree.nodes.push(Node::new("c/nl\nname/inner", Kind::File));
+    tree.nodes.push(Node::new("c/end\n", Kind::Dir));
+    tree.nodes.push(Node::new("c/end\n/z", Kind::File));
     let via = g.weighted(&[5, 4, 1]) as u8;
     let n = g.weighted(&[1, 3, 4, 3, 2, 1]);
     let sp = dir_spellings();
@@ -64,7 +67,7 @@ pub fn gen_case(g: &mut Gen) -> Case {
             3 => "c/dl".to_string(),
             4 => g.pick(&["c/missing", "nope", "c/d/none/deeper", "c/f/below-a-file"]).to_string(),
             5 => ".".to_string(),
-            6 => g.pick(&["c/a b", "c/nl\nname", "c/a b/x\ny"]).to_string(),
+            6 => g.pick(&["c/a b", "c/nl\nname", "c/a b/x\ny", "c/end\n", "c/end\n"]).to_string(),
             _ => {
                 // only through files0: names that cannot be operands
                 if via != 0 {
@@ -82,7 +85,7 @@ pub fn gen_case(g: &mut Gen) -> Case {
         roots.push(d);
     }
     let empties = if via != 0 && g.chance(1, 3) { g.vec_of(1, 2, |g| g.usize_in(0, 5)) } else { vec![] };
-    Case { tree, roots, via, final_nul: g.chance(2, 3), empties, tail: g.weighted(&[4, 2, 2, 2, 1]) as u8, follow_l: g.chance(1, 4), binary: via == 2 || g.chance(1, 10) }
+    Case { tree, roots, via, final_nul: g.chance(2, 3), empties, tail: g.weighted(&[4, 2, 2, 2, 1, 2, 1]) as u8, follow_l: g.chance(1, 4), binary: via == 2 || g.chance(1, 10) }
 }
 
 fn tail_tokens(t: u8) -> Vec<&'static str> {
@@ -91,6 +94,8 @@ fn tail_tokens(t: u8) -> Vec<&'static str> {
         2 => vec!["-sorted", "-depth", "-print0"],
         3 => vec!["-sorted", "-name", "*a*", "-print0"],
         4 => vec!["-sorted", "-maxdepth", "0", "-print0"],
+        5 => vec!["-sorted", "-mindepth", "1", "-print0"],
+        6 => vec!["-sorted", "-mindepth", "2", "-print0"],
         _ => vec!["-sorted", "-print0"],
     }
 }
@@ -105,7 +110,11 @@ fn expected(roots: &[String], tail: u8, follow: FollowMode) -> Expect {
     let wo = WalkOpts {
         follow,
         depth_first: tail == 2,
-        min_depth: 0,
+        min_depth: match tail {
+            5 => 1,
+            6 => 2,
+            _ => 0,
+        },
         max_depth: match tail {
             1 => 1,
             4 => 0,
